@@ -47,7 +47,7 @@ type Summary struct {
 	NonBoring   map[string]int64  `json:"nonboring"`
 	Probes      map[string]int64  `json:"probes"`
 	Counters    map[string]int64  `json:"counters"`
-	Points      []uint32          `json:"points"`
+	Points      map[string]uint32 `json:"points"`
 	Scenarios   map[string]int64  `json:"scenarios"`
 	Extra       map[string]int64  `json:"extra"`
 	WallS       float64           `json:"wall_s"`
@@ -155,7 +155,7 @@ func main() {
 	scenario := flag.String("scenario", "", "force a scenario")
 	params := flag.String("params", "", "scenario parameters k=v,k=v")
 	budget := flag.Float64("budget", 0, "wall-clock budget in seconds (0 = none)")
-	hashes := flag.Bool("indexhash", false, "emit per-index hashes (determinism self-test)")
+	hashes := flag.Int64("indexhash", 0, "emit per-index hashes for indexes below N (determinism self-test)")
 	samples := flag.Int("samples", 2, "number of complete sample runs to emit")
 	flag.Parse()
 
@@ -205,10 +205,11 @@ func main() {
 	}
 
 	sum := &Summary{Kind: "summary", Property: *prop, Choices: map[string]int64{}, NonBoring: map[string]int64{}, Probes: map[string]int64{},
-		Counters: map[string]int64{}, Scenarios: map[string]int64{}, Extra: map[string]int64{}, Points: make([]uint32, *points+1)}
-	if *hashes {
+		Counters: map[string]int64{}, Scenarios: map[string]int64{}, Extra: map[string]int64{}, Points: map[string]uint32{}}
+	if *hashes > 0 {
 		sum.IndexHash = map[string]uint64{}
 	}
+	pointAcc := make([]uint32, *points+1)
 	ntHashes := map[uint64]struct{}{}
 	allHashes := map[uint64]struct{}{}
 	states := map[uint64]struct{}{}
@@ -242,7 +243,7 @@ func main() {
 		for _, st := range res.States {
 			states[st] = struct{}{}
 		}
-		if sum.IndexHash != nil {
+		if sum.IndexHash != nil && idx < *hashes {
 			sum.IndexHash[fmt.Sprint(idx)] = res.Hash
 		}
 		for k := rt.Kind(0); k < rt.NumKinds; k++ {
@@ -264,8 +265,8 @@ func main() {
 			sum.Extra[k] += v
 		}
 		for i, n := range res.Points {
-			if i < len(sum.Points) {
-				sum.Points[i] += n
+			if n != 0 {
+				pointAcc[i] += n
 			}
 		}
 		switch {
@@ -284,6 +285,11 @@ func main() {
 				emitted++
 				enc.Encode(map[string]any{"kind": "sample", "run": res})
 			}
+		}
+	}
+	for i, n := range pointAcc {
+		if n != 0 {
+			sum.Points[fmt.Sprint(i)] = n
 		}
 	}
 	for h := range ntHashes {
